@@ -516,6 +516,21 @@ pub fn run_c05(cfg: &Cfg) {
             out.violation(&format!("standard_messages::{} NUL argument", k), "the constructor panics (unwrap on the refused push) instead of returning an error");
         }
     }
+    // the error constructors take a free text the same way (`make_error_response(.., Some(text))`, `invalid_args`): the same
+    // root, the same known finding
+    {
+        let call = rustbus::message_builder::DynamicHeader { serial: std::num::NonZeroU32::new(7), sender: Some(":1.5".into()), ..Default::default() };
+        for k in ["make_error_response", "invalid_args"] {
+            let r = guard(|| match k {
+                "make_error_response" => call.make_error_response("a.b.Err", Some("x\0y".to_string())),
+                _ => rustbus::standard_messages::invalid_args(&call, Some("a\0b")),
+            });
+            if r.is_err() {
+                out.violation(&format!("error constructor {} NUL argument", k), "the constructor panics (unwrap on the refused push) instead of returning an error");
+            }
+            out.hit("error_constructor_nul_text");
+        }
+    }
     out.finish(
         "flags: all 3 x 256 (exhaustive); builder messages: 5 types x all 128 subsets of the 7 optional header fields x name pools (valid and invalid names, lengths stretched so that fields end at every residue) x 6 body kinds (empty, u32, string, random Param, 1-3 descriptors, a body under an invalid signature) x flags x serial boundary values x {LE,BE}, marshalled (h.mar), checked for conformance with an independent field walker and decoded again by the library (h.msg); standard_messages constructors; distinct by request",
         false,
